@@ -116,3 +116,33 @@ NON_REENTRANT_LIBC = set("""strtok rand srand setlocale localeconv localtime gmt
 
 def is_intrinsic(name):
     return name.startswith("llvm.")
+
+
+def libc_allocator_bypass(prog):
+    """references to libc allocation functions from library code other than the three initialisers of the allocator
+    pointers: [(symbol, kind, where, function)]"""
+    out = []
+    for sym, kind, where, fname in ext_refs(prog, lib_only=True):
+        if is_intrinsic(sym):
+            continue
+        if sym in ("malloc", "realloc", "free") and kind == "global-init":
+            continue
+        if sym in ALLOCATING_LIBC:
+            out.append((sym, kind, where, fname))
+    return out
+
+
+def check_no_bypass(chk, rule, prog):
+    """shared form of C13.ext for the properties that rely on it (memory safety of free, 'nothing left allocated')"""
+    bad = libc_allocator_bypass(prog)
+    n = 0
+    for sym, kind, where, fname in bad:
+        chk.ob(rule, "%s %s in %s" % (kind, sym, fname), False, where, fn=fname, key="%s:%s" % (fname, sym),
+               detail="libc %s bypasses the configured allocator: a block of the installed allocator handed to libc free (or a libc block "
+                      "handed to the installed free) is a foreign pointer" % sym)
+    for sym, kind, where, fname in ext_refs(prog, lib_only=True):
+        if not is_intrinsic(sym):
+            n += 1
+    chk.ob(rule, "no library function calls libc malloc/realloc/free (or another allocating libc routine) directly", not bad, "src/",
+           key="bypass:none", detail="" if not bad else str([(b[0], b[3]) for b in bad]))
+    chk.floor(rule, "external references examined", n, 8)
